@@ -101,6 +101,49 @@ func checkC20(c *ctx) {
 		gcov["base_mode_evaluations"] = ab.Evaluations
 		gcov["base_mode_programs"] = ab.Programs
 	}
+	// ---- (b') modifier mode names its generated functions after file, line and
+	// column: files whose names are digit-extensions of each other, with
+	// directives on lines that make the concatenation ambiguous (stage.go:120 and
+	// stage1.go:20), must still get distinct names.
+	if c.R.NumViolations() < 6 && c.RS == nil {
+		ldir := newScratch(work, "layout")
+		mkFile := func(fn string, line int, k int) string {
+			var b strings.Builder
+			b.WriteString("//go:build cff\n\npackage pipeline\n\nimport (\n\t\"context\"\n\n\t\"go.uber.org/cff\"\n)\n\n")
+			fmt.Fprintf(&b, "func Stage%d(ctx context.Context, n int) (s string, err error) {\n", k)
+			cur := strings.Count(b.String(), "\n") + 1
+			for ; cur < line; cur++ {
+				b.WriteString("\t// padding\n")
+			}
+			fmt.Fprintf(&b, "\terr = cff.Flow(ctx,\n\t\tcff.Params(n),\n\t\tcff.Results(&s),\n\t\tcff.Concurrency(2),\n\t\tcff.Task(func(i int) (string, error) { return string(rune('a' + (i+%d)%%26)), nil }),\n\t)\n\treturn\n}\n", k)
+			return b.String()
+		}
+		layouts := [][2]struct {
+			fn   string
+			line int
+		}{
+			{{"stage.go", 120}, {"stage1.go", 20}},
+			{{"flow.go", 1234}, {"flow12.go", 34}},
+			{{"a.go", 215}, {"a2.go", 15}},
+		}
+		for li, l := range layouts {
+			for mi, mode := range []string{"modifier", "base"} {
+				rel := fmt.Sprintf("l%d%s/pipeline", li, mode)
+				writeFile(filepath.Join(ldir, rel, l[0].fn), mkFile(l[0].fn, l[0].line, 1))
+				writeFile(filepath.Join(ldir, rel, l[1].fn), mkFile(l[1].fn, l[1].line, 2))
+				tr := runTool(ldir, cff, "-genmode", mode, "-quiet", "./"+rel)
+				evals++
+				distinct[fmt.Sprintf("layout:%d:%s", li, mode)] = true
+				vet, verr := vc.Run(ldir, vc.Env(), "go", "vet", "-framepointer", "./"+rel)
+				if tr.Exit != 0 || verr != nil {
+					_ = mi
+					c.R.Add(vc.Violation{Property: "C20", Case: fmt.Sprintf("layout/%s+%s/%s", l[0].fn, l[1].fn, mode),
+						Why:     fmt.Sprintf("a package with directives at %s:%d and %s:%d: %s mode output does not compile (cff exit %d): %s %s", l[0].fn, l[0].line, l[1].fn, l[1].line, mode, tr.Exit, firstLines(tr.Stderr, 2), firstLines(vet, 3)),
+						Witness: map[string]interface{}{"engine": "T", "mode": mode, "files": []string{l[0].fn, l[1].fn}, "stderr": tr.Stderr, "vet": vet}})
+				}
+			}
+		}
+	}
 	acov := map[string]interface{}{
 		"evaluations":         evals,
 		"distinct_nontrivial": len(distinct),
